@@ -23,6 +23,7 @@ struct vsink {
     struct urefcount urefcount;
     char name[8];
     bool accept;
+    unsigned nrejects;
     int reqmode;              /* 0 hold, 1 throw, 2 refuse, 3 answer at once */
     char fd[32];              /* last accepted flow def */
     struct urequest *regs[16];
